@@ -264,6 +264,21 @@ func netC03(s *Sink, tier string) {
 			}
 		}
 	}
+	// broadcast path: hundreds of replies from other controllers, then S's own reply well inside the deadline - the call
+	// keeps waiting for S however many strays it has discarded
+	for _, n := range []int{300, 900} {
+		nextIndex++
+		idx := nextIndex
+		id := uint32(700000900)
+		farm.Plan(idx, Behaviour{Strays: n, StrayGap: 150 * time.Microsecond})
+		u := farmClient(farm, 0, 1500*time.Millisecond, nil, nil)
+		t0 := time.Now()
+		e, err := u.GetEvent(id, idx)
+		calls++
+		if err != nil || e == nil || e.Index != idx {
+			s.Fail(map[string]any{"op": "net-reply", "path": "broadcast", "strays": n}, fmt.Sprintf("after %d datagrams from other controllers the call did not wait for the addressed controller's reply, which came %d ms into a 1500 ms timeout (%v)", n, time.Since(t0).Milliseconds(), err))
+		}
+	}
 	s.Extra["net_calls"] = calls
 	s.Extra["net_malformed_accepted"] = accepted
 }
@@ -303,6 +318,16 @@ func netC11(s *Sink, tier string) {
 		if strings.Join(got, " ") != strings.Join(want, " ") {
 			js["got"], js["want"] = got, want
 			s.Fail(js, "discovery over real sockets did not return exactly the controllers that answered, in arrival order")
+		}
+	}
+	// 1500 datagrams that are not replies at all, then the six replies: none of them is hidden
+	{
+		farm.DiscoveryNoise, farm.BlankController, farm.NoiseBurst = false, false, 1500
+		u := farmClient(farm, 0, 1200*time.Millisecond, nil, nil)
+		devs, err := u.GetDevices()
+		farm.NoiseBurst = 0
+		if err != nil || len(devs) != 6 {
+			s.Fail(map[string]any{"op": "net-discovery-burst", "controllers": len(devs)}, fmt.Sprintf("discovery returned %d of the 6 controllers that answered after a burst of 1500 malformed datagrams (%v)", len(devs), err))
 		}
 	}
 	// three discoveries started together on one FIXED bind port: they take turns on the port, and each of them returns
